@@ -251,7 +251,8 @@ structure Allowed where
 def ifZero (o : StaticObj) : Bool := o.kind == "inactive" && o.insideIfZero && !o.inObject
 /-- removed by the preprocessor in the verified configuration (debug-only code) and absent from the objects -/
 def inactiveDebug (o : StaticObj) : Bool :=
-  o.kind == "inactive" && !o.inObject && o.note == "removed by the preprocessor: #if defined(DEBUG)"
+  o.kind == "inactive" && !o.inObject &&
+  (o.note == "removed by the preprocessor: #if defined(DEBUG)" || o.note == "removed by the preprocessor: #if ( DEBUGlevel>=1 )")
 /-- verification hook: exists only with the guard on, the library only reads it -/
 def hookReadOnly (o : StaticObj) : Bool :=
   o.guardOnly && !o.written && !o.escapes && !o.addrTaken && !o.inObject
@@ -276,6 +277,8 @@ def allowList : List Allowed := [
   dbgCounter "SRC/sgsitrf.c" "num_drop_L", dbgCounter "SRC/zgsitrf.c" "num_drop_L",
   dbgCounter "SRC/ilu_ccopy_to_ucol.c" "num_drop_U", dbgCounter "SRC/ilu_dcopy_to_ucol.c" "num_drop_U",
   dbgCounter "SRC/ilu_scopy_to_ucol.c" "num_drop_U", dbgCounter "SRC/ilu_zcopy_to_ucol.c" "num_drop_U",
+  { file := "SRC/memory.c", name := "superlu_malloc_total", cond := inactiveDebug,
+    why := "byte counter of the debugging allocator, compiled only with DEBUGlevel>=1 (default 0); a DEBUGlevel>=1 build is NOT thread-safe (limit of the claim)" },
   { file := "SRC/sp_ienv.c", name := "slu_verif_ienv", cond := hookReadOnly,
     why := "hook H1 (tuning override), exists only under SLU_VERIF; read by sp_ienv, written only by the harness between calls (never while library threads run)" },
   { file := "SRC/sp_ienv.c", name := "slu_verif_pivot_hook", cond := hookReadOnly,
